@@ -107,6 +107,15 @@ CHECKS = {
          "both header versions are validated delivery by delivery: suppressed exactly while the counter and the period filter say so, one "
          "NOPE with noise-level values on v1, nothing on v0, rejected arguments leave the state unchanged.",
     note="trusted: TLC, faketrx_drv.py"),
+ "C14": dict(
+    level="fault_enumeration", design="5 (C14)",
+    technique="fault enumeration judged by TLA+ trace validation: hostile datagrams injected into valid sessions of the real Application (FakeTrxTrace garbage/wild actions), corrupted capture files (DataDumpTrace), hostile responses/TRXD datagrams into trxcon's trx_if.c under ASan/UBSan (TrxconTrace)",
+    text="The specification supplies the oracle for 'goes on serving correctly': each session with injected hostile datagrams (non-UTF-8, "
+         "non-numeric/missing/huge arguments, no prefix/NUL, empty, 64 kB; truncated/bit-flipped/wrong-version bursts) must remain a "
+         "behaviour of FakeTrx with no exception and no effect of the hostile input; corrupted capture files are read by the real "
+         "reader and compared with the reader model; every malformation of a TRXC response and TRXD datagrams of critical lengths are "
+         "fed to trx_if.c, where a sanitizer report or a non-orderly state (vs TrxconIf) is a violation.",
+    note="trusted: TLC, ASan/UBSan for C memory safety (uninitialised reads are not detected), faketrx_drv.py, drv_trxcon.c; integers beyond 32 bit only checked for 'returns normally, one reply, touches only its parameters'"),
 }
 
 NOT_YET = {}
